@@ -1,5 +1,5 @@
 """property id -> check function"""
-from . import storecheck, followcheck
+from . import storecheck, followcheck, wirecheck
 
 REGISTRY = {}
 for p in ("C01", "C05", "C06", "C07", "C08", "C09", "C20"):
@@ -7,3 +7,5 @@ for p in ("C01", "C05", "C06", "C07", "C08", "C09", "C20"):
 
 for p in ("C02", "C03", "C11"):
     REGISTRY[p] = followcheck.run
+
+REGISTRY["C12"] = wirecheck.run
